@@ -29,3 +29,9 @@ Definition go_hex_decode (s : list N) : list N * bool :=
 (* strconv.ParseFloat through the float oracle (Base.parseF): a float is its canonical text *)
 Definition go_parse_float (o : foracle) (s : list N) : F * bool :=
   match parseF o s with Some x => (x, false) | None => ([48%N], true) end.
+
+From Bio.Model Require Smtext.
+(* regexp.MustCompile(`\S+`).FindAllString(s, -1): the maximal runs of non-space bytes *)
+Definition go_fields (s : list N) : list (list N) := Smtext.fields s.
+Definition go_parse_float_z (o : foracle) (s : list N) : F * Z :=
+  match parseF o s with Some x => (x, 0%Z) | None => ([48%N], 2%Z) end.
